@@ -3,7 +3,7 @@ import execprops as E
 
 EXTRA_MODS = ["Exec.Check"]
 ORACLES = [E.oracle_failure, E.oracle_spec_values]
-ASSUMPTIONS = ["formula vocabulary of Exec/Model.v (integers/None, calls, references by name/attribute, conditional, try/except, raising expressions)",
+ASSUMPTIONS = ["formula vocabulary of Exec/Model.v (integers/None, calls, references by name/attribute, conditional, try/except, try/finally, raising expressions)",
                "CPython evaluation order, inspect.Signature.bind, traceback line numbers are modelled, exercised by the correspondence"]
 
 
